@@ -83,10 +83,8 @@ func (c *ctx) parChunkFacts() {
 		"uint64(len(c.nullChunk.Data))": "max", "len(c.nullChunk.Data)": "max", "zeroes": "zeroes", "int(zeroes)": "zeroes",
 		"c.next!=nil": "hasNext", "c.next.active()": "nextActive", "len(c.next.results)": "nextLen",
 		"index.Length()": "ilen", "uint64(index.Length())": "ilen", "size": "size"}
-	if negated { // De Morgan: the atoms appear as `!=`, the whole condition is the negation
-		env["c.sync.ID!=c.nullChunk.ID"] = "(!syncNull)"
-		env["prev.ID!=c.nullChunk.ID"] = "(!prevNull)"
-		nullCond = &ast.UnaryExpr{Op: token.NOT, X: &ast.ParenExpr{X: nullCond}}
+	if negated { // `if a != x || b != x { return }`: the positive condition by De Morgan
+		nullCond = deMorgan(nullCond)
 	}
 	c.useLets(c.funcDecl(c.files, "pChunker", "syncWith"), c.funcDecl(c.files, "pChunker", "start"))
 	defer func() { c.lets = nil }()
@@ -136,4 +134,28 @@ func (c *ctx) parChunkFacts() {
 	fd := c.funcDecl(c.files, "pChunker", "start")
 	c.emitShape("shape_par_start", "parStartShape", c.condCallShape(fd, []string{"len(b)==0", "c.next!=nil", "inSync", "numNullChunks>0"},
 		[][2]string{{"c.chunker.Next", "Next"}, {"c.next.syncWith", "syncWith"}, {"c.chunker.Advance", "Advance"}, {"c.stop", "stop"}, {"close", "close"}}), fd != nil)
+}
+
+// deMorgan returns the negation of a condition built from ||, && and comparisons, pushed down to the comparisons
+func deMorgan(e ast.Expr) ast.Expr {
+	switch t := e.(type) {
+	case *ast.ParenExpr:
+		return deMorgan(t.X)
+	case *ast.UnaryExpr:
+		if t.Op == token.NOT {
+			return t.X
+		}
+	case *ast.BinaryExpr:
+		switch t.Op {
+		case token.LOR:
+			return &ast.BinaryExpr{X: deMorgan(t.X), Op: token.LAND, Y: deMorgan(t.Y)}
+		case token.LAND:
+			return &ast.BinaryExpr{X: deMorgan(t.X), Op: token.LOR, Y: deMorgan(t.Y)}
+		case token.NEQ:
+			return &ast.BinaryExpr{X: t.X, Op: token.EQL, Y: t.Y}
+		case token.EQL:
+			return &ast.BinaryExpr{X: t.X, Op: token.NEQ, Y: t.Y}
+		}
+	}
+	return &ast.UnaryExpr{Op: token.NOT, X: e}
 }
